@@ -23,6 +23,7 @@ import (
 	"os"
 	"os/signal"
 	"path/filepath"
+	"regexp"
 	"sort"
 	"strconv"
 	"strings"
@@ -978,13 +979,27 @@ type historyRun struct {
 	Ops []string `json:"history"` // start | stop | restart | cancel | execute | closelog | settle
 }
 
-type flakyLoggers struct{ closed atomic.Bool }
+type flakyLoggers struct {
+	closed atomic.Bool
+	mu     sync.Mutex
+	pids   []int // from the library's own "Started process [pid]" messages
+}
+
+var reStarted = regexp.MustCompile(`Started process \[(\d+)\]`)
 
 func (l *flakyLoggers) Close() error                 { l.closed.Store(true); return nil }
 func (l *flakyLoggers) SetLogSource(string) error    { return nil }
 func (l *flakyLoggers) SetLoggerSource(string) error { return nil }
-func (l *flakyLoggers) Log(...interface{})           {}
 func (l *flakyLoggers) LogError(...interface{})      {}
+func (l *flakyLoggers) Log(o ...interface{}) {
+	if m := reStarted.FindStringSubmatch(fmt.Sprint(o...)); m != nil {
+		if pid, err := strconv.Atoi(m[1]); err == nil {
+			l.mu.Lock()
+			l.pids = append(l.pids, pid)
+			l.mu.Unlock()
+		}
+	}
+}
 func (l *flakyLoggers) Check() error {
 	if l.closed.Load() {
 		return fmt.Errorf("loggers are closed")
@@ -1115,6 +1130,11 @@ func runHistory(hr historyRun) (sig, what string, trace []string) {
 		fail("ison-true:history", "IsOn() is true after the final stop request")
 	}
 	time.Sleep(30 * time.Millisecond)
+	lg.mu.Lock()
+	for _, pid := range lg.pids {
+		seen[pid] = true
+	}
+	lg.mu.Unlock()
 	for pid := range seen {
 		if pp, _, _, st, ok := readStat(pid); ok && st == 'Z' && pp == os.Getpid() {
 			fail("unreaped:history", fmt.Sprintf("instance %d has been killed but never waited for", pid))
@@ -1403,7 +1423,7 @@ func main() {
 	var cr concRun
 	if _, ok := r.ReplayObject(&cr); ok && cr.Kind != "" {
 		counts, whats := map[string]int{}, map[string]string{}
-		for a := 0; a < 5; a++ {
+		for a := 0; a < 6; a++ {
 			r.Eval()
 			if sig, wh, _ := runConc(cr); sig != "" {
 				counts[sig]++
@@ -1572,33 +1592,36 @@ func main() {
 		}
 	}
 
-	// concurrent calls on one object: several attempts per kind (the interleaving is the scheduler's). A signature is a
-	// failure when the MAJORITY of the attempts shows it; isolated occurrences are recorded as a note (the unchanged library
-	// has a narrow window of its own: monitoringOn is set by the monitor goroutine, so IsOn() can still be false just after
-	// Start() returned, and about 1 gated Start||Start in 100 spawns twice).
+	// concurrent calls on one object: several attempts per kind (the interleaving is the scheduler's). An anomaly is a failure
+	// when 2 further attempts of the same scenario show it too; an isolated one is recorded as a note.
 	type concOut struct {
 		sig, wh string
 		obs     concObs
 		n, bad  int
 	}
 	concAttempts := func(kind string, n int) concOut {
-		counts := map[string]int{}
-		whats := map[string]string{}
-		var last concObs
+		out := concOut{n: 0}
 		for a := 0; a < n; a++ {
 			sig, wh, ob := runConc(concRun{Kind: kind})
-			last = ob
-			if sig != "" {
-				counts[sig]++
-				whats[sig] = wh
-				last = ob
+			out.n++
+			out.obs = ob
+			if sig == "" {
+				continue
 			}
-		}
-		out := concOut{obs: last, n: n}
-		for sg, c := range counts {
-			out.bad += c
-			if 2*c > n {
-				out.sig, out.wh = sg, fmt.Sprintf("%s (in %d of %d attempts)", whats[sg], c, n)
+			// an anomaly is reported when 2 further attempts of the same scenario show it too
+			out.bad++
+			same := 0
+			for k := 0; k < 2; k++ {
+				s2, _, ob2 := runConc(concRun{Kind: kind})
+				out.n++
+				if s2 == sig {
+					same++
+					out.obs = ob2
+				}
+			}
+			if same == 2 {
+				out.sig, out.wh = sig, wh+" (confirmed by 2 further attempts)"
+				return out
 			}
 		}
 		return out
@@ -1607,7 +1630,14 @@ func main() {
 	var cwg sync.WaitGroup
 	for i := range concKinds {
 		cwg.Add(1)
-		go func(i int) { defer cwg.Done(); cOut[i] = concAttempts(concKinds[i], r.N(5, 15)) }(i)
+		go func(i int) {
+			defer cwg.Done()
+			n := r.N(5, 15)
+			if v, e := strconv.Atoi(os.Getenv("VERIF_C05_CONC_N")); e == nil && v > 0 {
+				n = v
+			}
+			cOut[i] = concAttempts(concKinds[i], n)
+		}(i)
 	}
 	// histories: each several times; an anomaly is reported when it is seen and then seen again in 2 further runs of the
 	// same history out of up to 6 (what happens between two back-to-back calls is the scheduler's)
@@ -1680,7 +1710,7 @@ func main() {
 			r.Fail(o.sig, o.wh, concRun{Kind: concKinds[i]})
 		} else if o.bad > 0 {
 			r.Count("concurrent-isolated-anomaly")
-			r.Note(fmt.Sprintf("%s: %d of %d attempts showed an anomaly (not a majority: not reported)", concKinds[i], o.bad, o.n))
+			r.Note(fmt.Sprintf("%s: %d of %d attempts showed an anomaly that 2 further attempts did not confirm", concKinds[i], o.bad, o.n))
 		}
 		if probe {
 			fmt.Fprintf(os.Stderr, "PROBE conc %s -> %+v [%s]\n", concKinds[i], o.obs, o.sig)
